@@ -4,6 +4,7 @@ import (
 	"bytes"
 	"crypto/ed25519"
 	"crypto/rand"
+	"encoding/base64"
 	"encoding/json"
 	"errors"
 	"fmt"
@@ -43,6 +44,13 @@ type IdP struct {
 	TokenPad int
 	// UserinfoDelay: the userinfo endpoint takes that long to answer (it does answer)
 	UserinfoDelay time.Duration
+	// TokenStyle: spelling of opaque access tokens: "" (plain), "b64pad" (base64 with '=' padding),
+	// "vschar" (other printable characters RFC 6749 allows in an access token)
+	TokenStyle string
+	// UserinfoClaims: the userinfo answer also carries the user's name claims (most providers do)
+	UserinfoClaims bool
+	// ClockAhead: the provider's clock runs that much ahead of the gateway's (iat/exp of ID tokens)
+	ClockAhead time.Duration
 
 	Reqs []IdPReq
 }
@@ -55,6 +63,7 @@ type IdPUser struct {
 type IdPToken struct {
 	Sub     string
 	Revoked bool
+	Claims  map[string]any
 }
 
 type IdPReq struct {
@@ -86,6 +95,15 @@ func (p *IdP) IssueAccessToken(sub string) string {
 			"iat": time.Now().Unix(), "exp": time.Now().Add(time.Hour).Unix()})
 		in := codec.B64(hdr) + "." + codec.B64(pl)
 		at = in + "." + codec.B64(ed25519.Sign(p.priv, []byte(in)))
+	}
+	switch p.TokenStyle {
+	case "b64pad":
+		at = base64.StdEncoding.EncodeToString([]byte(at))
+		for !strings.HasSuffix(at, "=") {
+			at = base64.StdEncoding.EncodeToString([]byte("x" + at))
+		}
+	case "vschar":
+		at = "v1!" + at + "*$(~)"
 	}
 	if p.TokenPad > 0 {
 		// providers that pack group memberships into the access token issue kilobytes
@@ -160,6 +178,11 @@ func textResp(r *http.Request, status int, ct, s string) *http.Response {
 
 func (p *IdP) idToken(u *IdPUser, fault string) string {
 	now := time.Now()
+	if p.ClockAhead != 0 {
+		// clock skew: the provider stamps its tokens by its own clock
+		now = now.Add(p.ClockAhead)
+		p.w.S.Count("fault.clock.idp_ahead_of_gateway")
+	}
 	claims := map[string]any{"iss": p.Issuer, "aud": "rdpgw", "sub": u.Sub, "iat": now.Unix(), "exp": now.Add(5 * time.Minute).Unix()}
 	for k, v := range u.Claims {
 		claims[k] = v
@@ -228,6 +251,7 @@ func (p *IdP) handle(r *http.Request, body []byte, tok string) (*http.Response, 
 			return textResp(r, 200, "application/json", "{not json"), nil
 		}
 		at := p.IssueAccessToken(u.Sub)
+		p.Tokens[at].Claims = u.Claims
 		out := map[string]any{"access_token": at, "token_type": "Bearer", "expires_in": 300}
 		if f != "noidtoken" {
 			out["id_token"] = p.idToken(u, f)
@@ -265,7 +289,13 @@ func (p *IdP) handle(r *http.Request, body []byte, tok string) (*http.Response, 
 		if !ok || t.Revoked || tok == "" {
 			return textResp(r, 401, "text/plain", "invalid_token"), nil
 		}
-		return jsonResp(r, 200, map[string]any{"sub": t.Sub}), nil
+		ui := map[string]any{"sub": t.Sub}
+		if p.UserinfoClaims {
+			for k, v := range t.Claims {
+				ui[k] = v
+			}
+		}
+		return jsonResp(r, 200, ui), nil
 	}
 	return textResp(r, 404, "text/plain", "not found"), nil
 }
